@@ -183,3 +183,88 @@ package ugo
 //@ ensures[errkind] err != nil ==> vm.ip == old(vm.ip) && vm.sp == old(vm.sp) && vm.stack[vm.sp-1] == old(vm.stack[vm.sp-1])
 //@ modifies vm.ip, vm.stack
 //@ property C01 C15
+
+// ---------------------------------------------------------------------------
+// C03: handler-stack discipline of the try opcodes. SETUPTRY pushes exactly
+// one entry; SETUPCATCH / SETUPFINALLY touch only the top entry; leaving a
+// finally block (THROW 0) removes the entry of the statement being left on
+// every path; findFinally pops only entries without a pending finally.
+
+//@ func (*errHandlers).findFinally
+//@ params t upto
+//@ results p
+//@ requires t == nil || len(t.handlers) < 1<<40
+//@ ensures[nil]     t == nil ==> p == 0
+//@ ensures[shrink]  t != nil ==> len(t.handlers) <= old(len(t.handlers)) && specPrefix(t.handlers, old(verifrt.Snap(t.handlers)), len(t.handlers))
+//@ ensures[found]   t != nil && p != 0 ==> len(t.handlers) >= 1 && len(t.handlers)-1 >= upto && t.handlers[len(t.handlers)-1].finally == p
+//@ ensures[none]    t != nil && p == 0 ==> len(t.handlers) == 0 || len(t.handlers)-1 < upto
+//@ ensures[popped]  t != nil ==> forall k int :: len(t.handlers) <= k && k < old(len(t.handlers)) ==> old(verifrt.Snap(t.handlers))[k].finally == 0
+//@ ensures[err]     t != nil ==> t.err == old(t.err)
+//@ loop 0 invariant t != nil && len(t.handlers) <= old(len(t.handlers)) && specPrefix(t.handlers, old(verifrt.Snap(t.handlers)), len(t.handlers))
+//@ loop 0 invariant forall k int :: len(t.handlers) <= k && k < old(len(t.handlers)) ==> old(verifrt.Snap(t.handlers))[k].finally == 0
+//@ loop 0 invariant t.err == old(t.err)
+//@ modifies t.handlers
+//@ property C03
+
+//@ func (*VM).xOpSetupTry
+//@ params vm
+//@ requires vmFrameOK(vm) && vm.ip < len(vm.curInsts)-8 && specHandlersOK(specHandlers(vm))
+//@ ensures[push]    len(specHandlers(vm)) == old(len(specHandlers(vm)))+1
+//@ ensures[keep]    specPrefix(specHandlers(vm), old(verifrt.Snap(specHandlers(vm))), old(len(specHandlers(vm))))
+//@ ensures[entry]   specHandlers(vm)[len(specHandlers(vm))-1] == errHandler{sp: vm.sp, catch: specOperand32(vm.curInsts, old(vm.ip)+1), finally: specOperand32(vm.curInsts, old(vm.ip)+5)}
+//@ ensures[err]     specPendingErr(vm) == old(specPendingErr(vm))
+//@ ensures[step]    vm.ip == old(vm.ip)+8 && vm.sp == old(vm.sp)
+//@ ensures[ok]      specHandlersOK(specHandlers(vm))
+//@ modifies vm.ip, vm.curFrame.errHandlers, vm.curFrame.errHandlers.handlers, vm.curFrame.errHandlers.handlers[*]
+//@ property C03
+
+//@ func (*VM).xOpSetupCatch
+//@ params vm
+//@ requires vmFrameOK(vm) && len(specHandlers(vm)) < 1<<30
+//@ ensures[len]     len(specHandlers(vm)) == old(len(specHandlers(vm)))
+//@ ensures[below]   specPrefix(specHandlers(vm), old(verifrt.Snap(specHandlers(vm))), len(specHandlers(vm))-1)
+//@ ensures[top]     len(specHandlers(vm)) >= 1 ==> specHandlers(vm)[len(specHandlers(vm))-1] == errHandler{sp: old(verifrt.Snap(specHandlers(vm)))[len(specHandlers(vm))-1].sp, catch: 0, finally: old(verifrt.Snap(specHandlers(vm)))[len(specHandlers(vm))-1].finally, returnTo: old(verifrt.Snap(specHandlers(vm)))[len(specHandlers(vm))-1].returnTo}
+//@ ensures[caught]  len(specHandlers(vm)) >= 1 && old(specPendingErr(vm)) != nil ==> vm.stack[old(vm.sp)] == Object(old(specPendingErr(vm))) && specPendingErr(vm) == nil
+//@ ensures[nothing] len(specHandlers(vm)) == 0 || old(specPendingErr(vm)) == nil ==> vm.stack[old(vm.sp)] == Undefined && specPendingErr(vm) == old(specPendingErr(vm))
+//@ ensures[push]    vm.sp == old(vm.sp)+1 && vm.ip == old(vm.ip)
+//@ modifies vm.sp, vm.stack, vm.curFrame.errHandlers.err, vm.curFrame.errHandlers.handlers[*]
+//@ property C03
+
+//@ func (*VM).xOpSetupFinally
+//@ params vm
+//@ requires vmFrameOK(vm) && len(specHandlers(vm)) < 1<<30
+//@ ensures[len]     len(specHandlers(vm)) == old(len(specHandlers(vm)))
+//@ ensures[below]   specPrefix(specHandlers(vm), old(verifrt.Snap(specHandlers(vm))), len(specHandlers(vm))-1)
+//@ ensures[top]     len(specHandlers(vm)) >= 1 ==> specHandlers(vm)[len(specHandlers(vm))-1] == errHandler{sp: old(verifrt.Snap(specHandlers(vm)))[len(specHandlers(vm))-1].sp, catch: 0, finally: 0, returnTo: old(verifrt.Snap(specHandlers(vm)))[len(specHandlers(vm))-1].returnTo}
+//@ ensures[rest]    specPendingErr(vm) == old(specPendingErr(vm)) && vm.sp == old(vm.sp) && vm.ip == old(vm.ip)
+//@ modifies vm.curFrame.errHandlers.handlers[*]
+//@ property C03
+
+// Leaving a finally block (THROW 0) with no pending error: the entry of the
+// try statement being left is removed, whether a jump is pending (return /
+// break / continue through the finally block) or the statement completed
+// normally.
+//@ func (*VM).xOpThrow
+//@ params vm
+//@ results err
+//@ requires vmFrameOK(vm) && vm.ip < len(vm.curInsts)-1 && vm.curInsts[vm.ip+1] == 0
+//@ requires vm.curFrame.errHandlers != nil && len(specHandlers(vm)) >= 1 && len(specHandlers(vm)) < 1<<30 && specHandlersOK(specHandlers(vm))
+//@ requires specPendingErr(vm) == nil
+//@ ensures[noerr]   err == nil
+//@ ensures[popped]  len(specHandlers(vm)) == old(len(specHandlers(vm)))-1 && specPrefix(specHandlers(vm), old(verifrt.Snap(specHandlers(vm))), len(specHandlers(vm)))
+//@ ensures[normal]  old(specHandlers(vm)[len(specHandlers(vm))-1].returnTo) <= 0 ==> vm.sp == old(vm.sp) && vm.ip == old(vm.ip)+1
+//@ ensures[jump]    old(specHandlers(vm)[len(specHandlers(vm))-1].returnTo) > 0 ==> vm.sp == old(specHandlers(vm)[len(specHandlers(vm))-1].sp) && vm.ip == old(specHandlers(vm)[len(specHandlers(vm))-1].returnTo)-1
+//@ ensures[pending] specPendingErr(vm) == nil
+//@ loop 0 invariant i <= vm.sp && vm.sp == old(vm.sp)
+//@ modifies vm.sp, vm.ip, vm.stack, vm.curFrame.errHandlers.handlers, vm.curFrame.errHandlers.handlers[*]
+//@ property C03
+
+// throw is not verified yet: callers may only rely on the frame below
+// (everything else they need must hold on paths that do not call it).
+//@ func (*VM).throw
+//@ params vm err noTrace
+//@ results r
+//@ requires vm != nil
+//@ modifies vm.sp, vm.ip, vm.stack, vm.curFrame, vm.frameIndex, vm.curInsts, vm.frames, vm.constants
+//@ trusted
+//@ property C03
